@@ -20,6 +20,7 @@ import (
 	"fmt"
 	"io"
 	"math"
+	"net"
 	"os"
 	"reflect"
 	"sort"
@@ -30,6 +31,9 @@ import (
 	"unicode/utf8"
 
 	dtypes "github.com/docker/docker/api/types"
+	"github.com/google/gopacket"
+	"github.com/google/gopacket/layers"
+	"github.com/google/gopacket/macs"
 	"github.com/mailru/easyjson/jwriter"
 	"github.com/v-byte-cpu/sx/command"
 	"github.com/v-byte-cpu/sx/command/log"
@@ -1630,6 +1634,185 @@ func bigCase(n int, gen string) []row {
 	return []row{rw, hostsCase(list, "hosts:"+list)}
 }
 
+// ---------------------------------------------------------------- producer bursts: faithful from the producer through the queue
+
+func serialize(ls ...gopacket.SerializableLayer) []byte {
+	buf := gopacket.NewSerializeBuffer()
+	if err := gopacket.SerializeLayers(buf, gopacket.SerializeOptions{FixLengths: true, ComputeChecksums: true}, ls...); err != nil {
+		panic(err)
+	}
+	return append([]byte{}, buf.Bytes()...)
+}
+
+// burstCase drives a REAL producer (arp ScanMethod, tcp ScanMethod, icmp/udp PacketProcessor) with a burst of
+// distinct reply frames (with repeats: A,B,A,C,...) into the real result channel, waits until the whole burst is
+// queued, and only then lets the real logger (plain JSON, or the unique logger around it) print it.  Judged on
+// the implementation alone: the printed lines are the records of the frames, in order (unique: first sightings).
+// The expected records are built by this driver from the frame fields, never read from the queued values.
+func burstCase(r *hlib.SplitMix64, gen string) row {
+	producer := []string{"arp", "tcp", "icmp"}[r.Intn(3)]
+	unique := r.Intn(2) == 0
+	class := "burst-" + producer
+	if unique {
+		class += "+unique"
+	} else {
+		class += "+plain"
+	}
+	rw := row{T: "log", Gen: gen, Class: class, Stop: -1, Nontrivial: true}
+	if unique {
+		rw.T = "live"
+	}
+	ctx, cancel := context.WithCancel(context.Background())
+	defer cancel()
+	results := scan.NewResultChan(ctx, 64)
+	myMAC, myIP := net.HardwareAddr{2, 0, 0, 0, 0, 1}, net.IP{192, 168, 0, 254}
+	var process func(frame []byte) error
+	scanType := ""
+	switch producer {
+	case "arp":
+		sm := arp.NewScanMethod(nil, results)
+		process = func(f []byte) error { return sm.ProcessPacketData(f, nil) }
+	case "tcp":
+		scanType = tcp.SYNScanType
+		sm := tcp.NewScanMethod(scanType, nil, results)
+		process = func(f []byte) error { return sm.ProcessPacketData(f, nil) }
+	default:
+		scanType = []string{"icmp", "udp"}[r.Intn(2)]
+		pp := icmp.NewPacketProcessor(scanType, results, false)
+		process = func(f []byte) error { return pp.ProcessPacketData(f, nil) }
+	}
+	// hosts of the burst
+	npool := 2 + r.Intn(4)
+	type host struct {
+		ip   net.IP
+		mac  net.HardwareAddr
+		port uint16
+		ttl  uint8
+		typ  uint8
+		code uint8
+		syn  bool
+		ack  bool
+		rst  bool
+	}
+	var pool []host
+	for i := 0; i < npool; i++ {
+		h := host{ip: net.IP{10, byte(r.Intn(3)), byte(r.Intn(250)), byte(1 + i)}, mac: net.HardwareAddr(r.Bytes(6)), port: uint16(1 + r.Intn(65535)),
+			ttl: uint8(1 + r.Intn(255)), typ: []uint8{0, 3, 11}[r.Intn(3)], code: uint8(r.Intn(4)), syn: r.Bool(), ack: true, rst: r.Bool()}
+		if r.Intn(2) == 0 {
+			copy(h.mac, [][]byte{{0xb0, 0xbe, 0x76}, {0x80, 0xc5, 0xf2}, {0x88, 0x53, 0x95}, {0x00, 0x00, 0x0c}}[r.Intn(4)])
+		}
+		pool = append(pool, h)
+	}
+	n := 2 + r.Intn(11)
+	var want []genRes
+	for i := 0; i < n; i++ {
+		h := pool[r.Intn(npool)]
+		if i < npool {
+			h = pool[i] // every host at least once when the burst is long enough, repeats after that
+		}
+		var frame []byte
+		var g genRes
+		switch producer {
+		case "arp":
+			frame = serialize(&layers.Ethernet{SrcMAC: h.mac, DstMAC: myMAC, EthernetType: layers.EthernetTypeARP},
+				&layers.ARP{AddrType: layers.LinkTypeEthernet, Protocol: layers.EthernetTypeIPv4, HwAddressSize: 6, ProtAddressSize: 4,
+					Operation: layers.ARPReply, SourceHwAddress: h.mac, SourceProtAddress: h.ip.To4(), DstHwAddress: myMAC, DstProtAddress: myIP.To4()})
+			var pfx [3]byte
+			copy(pfx[:], h.mac[:3])
+			x := &arp.ScanResult{IP: h.ip.String(), MAC: h.mac.String(), Vendor: macs.ValidMACPrefixMap[pfx]}
+			g = genRes{real: x, desc: resDesc{0, []val{sval(x.IP), sval(x.MAC), sval(x.Vendor)}}}
+		case "tcp":
+			ipl := &layers.IPv4{Version: 4, TTL: h.ttl, Protocol: layers.IPProtocolTCP, SrcIP: h.ip.To4(), DstIP: myIP.To4()}
+			tl := &layers.TCP{SrcPort: layers.TCPPort(h.port), DstPort: 40000, SYN: h.syn, ACK: h.ack, RST: h.rst, Window: 1000}
+			if err := tl.SetNetworkLayerForChecksum(ipl); err != nil {
+				panic(err)
+			}
+			frame = serialize(&layers.Ethernet{SrcMAC: h.mac, DstMAC: myMAC, EthernetType: layers.EthernetTypeIPv4}, ipl, tl)
+			x := &tcp.ScanResult{ScanType: scanType, IP: h.ip.String(), Port: h.port, Flags: tcp.AllFlags(&layers.TCP{SYN: h.syn, ACK: h.ack, RST: h.rst})}
+			g = genRes{real: x, desc: resDesc{1, []val{sval(x.ScanType), sval(x.IP), nval(int64(x.Port)), sval(x.Flags)}}}
+		default:
+			ipl := &layers.IPv4{Version: 4, TTL: h.ttl, Protocol: layers.IPProtocolICMPv4, SrcIP: h.ip.To4(), DstIP: myIP.To4()}
+			il := &layers.ICMPv4{TypeCode: layers.CreateICMPv4TypeCode(h.typ, h.code), Id: 1, Seq: uint16(i)}
+			frame = serialize(&layers.Ethernet{SrcMAC: h.mac, DstMAC: myMAC, EthernetType: layers.EthernetTypeIPv4}, ipl, il, gopacket.Payload([]byte("abcdefgh")))
+			x := &icmp.ScanResult{ScanType: scanType, IP: h.ip.String(), TTL: h.ttl, ICMP: &icmp.Response{Type: h.typ, Code: h.code}}
+			g = genRes{real: x, desc: resDesc{2, []val{sval(x.ScanType), sval(x.IP), nval(int64(x.TTL)), {"ptr": []val{nval(int64(h.typ)), nval(int64(h.code))}}}}}
+		}
+		if err := process(frame); err != nil {
+			rw.Spec = "the " + producer + " processor rejects a well-formed reply frame: " + err.Error()
+			return rw
+		}
+		want = append(want, g)
+	}
+	// the whole burst is queued before anything is printed: take it off the real result channel only now
+	// (the queued values are not looked at) and hand it to the real logger as a closed channel
+	queued := make(chan scan.Result, n)
+	for i := 0; i < n; i++ {
+		select {
+		case x := <-results.Chan():
+			queued <- x
+		case <-time.After(5 * time.Second):
+			rw.Spec = fmt.Sprintf("the %s processor reported %d of %d well-formed reply frames", producer, i, n)
+			return rw
+		}
+	}
+	close(queued)
+	w := &recWriter{}
+	lg, err := log.NewLogger(w, producer, log.JSON())
+	if err != nil {
+		panic(err)
+	}
+	var lgr log.Logger = lg
+	if unique {
+		lgr = log.NewUniqueLogger(lg)
+	}
+	done := make(chan struct{})
+	go func() { lgr.LogResults(ctx, queued); close(done) }()
+	select {
+	case <-done:
+	case <-time.After(20 * time.Second):
+		rw.Spec = "the logger does not finish a closed burst"
+		return rw
+	}
+	var stream []byte
+	w.mu.Lock()
+	for _, p := range w.writes {
+		stream = append(stream, p...)
+	}
+	w.mu.Unlock()
+	rw.Writes = []string{hx(stream)}
+	var expect [][]byte
+	seen := map[string]bool{}
+	for _, g := range want {
+		rw.Rs = append(rw.Rs, g.desc)
+		if unique {
+			if seen[hostKey(g.real)] {
+				continue
+			}
+			seen[hostKey(g.real)] = true
+		}
+		enc, _ := g.real.MarshalJSON()
+		expect = append(expect, enc)
+	}
+	lines := bytes.Split(bytes.TrimSuffix(stream, []byte{'\n'}), []byte{'\n'})
+	if len(stream) == 0 {
+		lines = nil
+	}
+	for i := 0; i < len(expect) || i < len(lines); i++ {
+		switch {
+		case i >= len(lines):
+			rw.Spec = fmt.Sprintf("burst of %d %s replies: line %d is missing, expected %s", n, producer, i+1, expect[i])
+		case i >= len(expect):
+			rw.Spec = fmt.Sprintf("burst of %d %s replies: unexpected extra line %d: %s", n, producer, i+1, lines[i])
+		case !bytes.Equal(lines[i], expect[i]):
+			rw.Spec = fmt.Sprintf("burst of %d %s replies queued before printing: line %d is %s, the frame's record is %s", n, producer, i+1, lines[i], expect[i])
+		default:
+			continue
+		}
+		break
+	}
+	return rw
+}
+
 // ---------------------------------------------------------------- driver
 
 func derive(seed int64, i int) int64 {
@@ -1676,6 +1859,8 @@ func genCase(gen string) row {
 		return uniqCase(hlib.NewRand(num(1)), gen)
 	case "live":
 		return liveCase(hlib.NewRand(num(1)), gen)
+	case "burst":
+		return burstCase(hlib.NewRand(num(1)), gen)
 	}
 	panic("bad gen string " + gen)
 }
@@ -1687,6 +1872,7 @@ func main() {
 	hist := flag.Int("hist", 200, "number of logger / unique-logger histories (each)")
 	ndec := flag.Int("dec", 400, "number of JSON texts for the decoder tie")
 	nstr := flag.Int("str", 600, "number of raw strings")
+	nburst := flag.Int("burst", 150, "number of producer bursts (arp/tcp/icmp processors -> result channel -> logger)")
 	pairs := flag.Bool("pairs", false, "all 65536 two-byte strings, both escapers")
 	big := flag.Int("big", 0, "number of distinct hosts of the big unique-logger history (0 = none)")
 	one := flag.String("replay", "", "replay one case from its generator string")
@@ -1746,6 +1932,10 @@ func main() {
 	}
 	for i := 0; i < *ndec; i++ {
 		w.Put(genCase(fmt.Sprintf("dec:%d", derive(*seed, k))))
+		k++
+	}
+	for i := 0; i < *nburst; i++ {
+		w.Put(genCase(fmt.Sprintf("burst:%d", derive(*seed, k))))
 		k++
 	}
 	for i := 0; i < *hist; i++ {
